@@ -13,3 +13,57 @@ LEVEL_NOTE = "Trusted: Coq kernel; hand-written model Model/Core.v + Model/Prog.
 FAMILIES = [
     progs.program_family("programs", oracles.oracle_c07, 150, 3000, deep=dict(depth=6), **dict(p_reserved=0.15, p_globals=0.3, fault=0.7, registry_rate=0.9, p_fault_ser=0.3, p_hostile=0.15, file_dest=True, p_raw=0.05, sr=0.3, p_tb=0.1)),
 ]
+
+
+# ---- a logging call racing add_global_fields in another thread (line-granular schedules) ----
+import json
+from lib.framework import Family
+
+
+def gen_race(rng, tier):
+    out = []
+    for i in range(0, 50 if tier == "quick" else 120, 2 if tier == "quick" else 1):
+        out.append({"segments": [[0, i], [1, 2000], [0, 2000]], "nglobals": 1 + i % 3})
+        out.append({"segments": [[1, i], [0, 2000], [1, 2000]], "nglobals": 1 + i % 3})
+    for _ in range(20 if tier == "quick" else 300):
+        out.append({"sched": [rng.randrange(2) for _ in range(rng.randrange(0, 200))], "nglobals": rng.randrange(1, 4)})
+    return out
+
+
+def impl_race(case):
+    from lib.linesched import LineScheduler, segments_to_schedule, instrument
+    from eliot import log_message, start_action, _output
+    d = _output.Destinations()
+    _output.Logger._destinations = d
+    got = []
+    d.add(lambda m: got.append(dict(m)))
+    d.addGlobalFields(g0=0)
+    s = LineScheduler(files=("eliot/_output.py",))
+    instrument(d, s)
+
+    def a():
+        with start_action(action_type="a"):
+            log_message(message_type="m", n=1)
+
+    def b():
+        for k in range(case["nglobals"]):
+            d.addGlobalFields(**{"extra%d" % k: k})
+    sched = case.get("sched")
+    if sched is None:
+        sched = segments_to_schedule([tuple(x) for x in case["segments"]])
+    s.run([a, b], sched)
+    return {"results": s.results, "n": len(got), "types": [m.get("message_type") or m.get("action_status") for m in got]}
+
+
+def oracle_race(case, obs):
+    for t, r in enumerate(obs["results"]):
+        if not r or r[0] != "ok":
+            return "%s raised %r while the other thread was %s" % (
+                ["the logging thread", "add_global_fields"][t], r[1:] if r else None, ["adding global fields", "logging"][t])
+    if obs["types"] != ["started", "m", "succeeded"]:
+        return "messages delivered: %r" % (obs["types"],)
+    return None
+
+
+FAMILIES.append(Family("globals_race", gen_race, impl_race, None, None, oracle_race,
+                       lambda case, obs: json.dumps(case), shard=30, case_timeout=30))
